@@ -736,6 +736,28 @@ def _check_assembly(res, rng, cname, mesh, N_poly, r, worst, pool_cpu=None, symm
                 report(res, 'C09:shortcut-differs-from-direct:%s:%s' % (cname, name),
                               dict(curve=cname, leaves=len(elems), elem=describe(e), assembled=float(eta[i, col]),
                                    per_element=float(direct[i, col]), relative_error=float(err)))
+    # the element list in another ORDER (callers may sort by slab, reverse, shuffle): row i belongs to list entry i
+    pos = {id(e): i for i, e in enumerate(elems)}
+    orders = [('reversed', list(reversed(elems))),
+              ('latest-slab-first', sorted(elems, key=lambda e: (-e.time_interval[0], e.space_interval[0])))]
+    sh = list(elems)
+    rng.shuffle(sh)
+    orders.append(('shuffled', sh))
+    for oname, lst in orders[:(3 if len(elems) <= 40 else 1)]:
+        eta_o = est.estimate_sobolev(lst, r)
+        wl2_o = est.estimate_weighted_l2(lst, r)
+        res.count(('list-order', cname, N_poly, oname, len(lst)), True)
+        for i, e in enumerate(lst):
+            for col, name in ((0, 'time'), (1, 'space')):
+                err = rel_err(eta_o[i, col], direct[pos[id(e)], col])
+                if err > 1e-12:
+                    report(res, 'C09:shortcut-differs-from-direct:%s:%s:list-order' % (cname, name),
+                           dict(curve=cname, leaves=len(elems), order=oname, elem=describe(e), list_position=i,
+                                assembled=float(eta_o[i, col]), per_element=float(direct[pos[id(e)], col]),
+                                relative_error=float(err)))
+                    break
+            if tuple(wl2_o[i]) != tuple(est.weighted_l2(e, r)):
+                report(res, 'C09:estimate_weighted_l2-differs-from-weighted_l2:%s:list-order' % cname, dict(elem=describe(e), order=oname))
     wl2 = est.estimate_weighted_l2(elems, r)
     for i, e in enumerate(elems):
         if tuple(wl2[i]) != tuple(est.weighted_l2(e, r)):
